@@ -66,7 +66,7 @@ fn kind_name(e: &succinctly::yaml::validate::YamlValidationError) -> String {
 fn position_check(text: &[u8], e: &succinctly::yaml::validate::YamlValidationError) -> Option<String> {
     let p = e.position;
     if p.offset > text.len() {
-        return Some(format!("validate:position:offset>len:{}", kind_name(e)));
+        return Some("validate:position:offset>len".to_string());
     }
     let (l, c) = oracle::line_col_crlf(text, p.offset);
     if (l, c) != (p.line, p.column) {
@@ -75,7 +75,8 @@ fn position_check(text: &[u8], e: &succinctly::yaml::validate::YamlValidationErr
         let has_cr = pre.contains(&b'\r');
         let mid = p.offset > 0 && p.offset < text.len() && text[p.offset - 1] == b'\r' && text[p.offset] == b'\n';
         let what = if p.line != l { "line" } else { "column" };
-        return Some(format!("validate:position:{what}-mismatch:{}:{}{}", kind_name(e), if has_cr { "cr-before-offset" } else { "lf-only" }, if mid { ":offset-inside-crlf" } else { "" }));
+        // position tracking is independent of the error kind: the kind is not part of the signature
+        return Some(format!("validate:position:{what}-mismatch:{}{}", if has_cr { "cr-before-offset" } else { "lf-only" }, if mid { ":offset-inside-crlf" } else { "" }));
     }
     None
 }
@@ -123,13 +124,19 @@ fn wellformed(text: &[u8], marks: &[ygen::Mark], brk: ygen::Brk, wrap: ygen::Wra
         }),
         Ok(Ok(())) => {}
         Ok(Err(e)) => {
-            // signature: error kind + style of the token at (or just before) the error + break + wrapper class
-            let st = ygen::style_at(marks, e.position.offset.min(text.len()));
-            let w = match wrap {
-                ygen::Wrap::None | ygen::Wrap::Lead => "bare",
-                _ => "markers",
+            // signature: error kind + what stands at the error offset (the style of the token that covers
+            // it, else the byte itself) + break kind
+            let off = e.position.offset.min(text.len());
+            let at = match marks.iter().find(|m| (m.start as usize) <= off && off < m.end as usize) {
+                Some(m) => format!("in-{}{}", if m.key { "key-" } else { "" }, m.style.name()),
+                None => match text.get(off) {
+                    Some(&b) if b.is_ascii_graphic() => format!("at-byte-{}", b as char),
+                    Some(&b) => format!("at-byte-0x{b:02x}"),
+                    None => "at-end".to_string(),
+                },
             };
-            let sig = format!("validate:false-reject:{}:at-{st}:{}:{w}", kind_name(&e), brk.name());
+            let _ = wrap;
+            let sig = format!("validate:false-reject:{}:{at}:{}", kind_name(&e), brk.name());
             rep.fail(&sig, text.len(), || {
                 let mut c = case();
                 c["signature_hint"] = json!(sig);
